@@ -400,6 +400,10 @@ class World:
 
 def handler_token(h):
     name = getattr(h, "__name__", repr(h))
+    if ".specialized_dispatch_" in name:
+        name = "<dependent dispatcher>"
+    elif "[" in name:
+        name = name[name.index("["):]
     co = getattr(h, "__code__", None)
     fname = getattr(co, "co_filename", "")
     if fname.startswith(WORLD_PREFIX):
@@ -466,7 +470,9 @@ def classify(e):
                                      or "missing" in msg):
         # call-shape rejection by the generated entry point
         return ["shape", re.sub(r"^[\w.\[\], ]*\(\)", "()", strip_names(msg))[:100]]
-    return ["other", type(e).__name__, strip_names(msg)[:100]]
+    # internal / unexpected errors: the type only (messages may list set contents in
+    # address-dependent order, e.g. graphlib.CycleError)
+    return ["other", type(e).__name__]
 
 
 def is_dispatch_verdict(out):
